@@ -1212,6 +1212,14 @@ class Program:
                 flags = dstr(e['args'][1]) if len(e.get('args', [])) > 1 else ''
                 eff = 'fs-open-write' if any(x in flags for x in ('O_WRONLY', 'O_RDWR', 'O_CREAT',
                                                                    '1', '2', '64', '65', '66')) else None
+            if nm in ('fwrite', 'fputs', 'fputc', 'fprintf', 'putc', 'vfprintf', 'fflush'):
+                # stdio output to the standard streams is terminal output, not a file write
+                stream = dstr(e['args'][-1] if nm in ('fwrite', 'fputs', 'fputc', 'putc') else e['args'][0]) \
+                    if e.get('args') else ''
+                if stream in ('stdout', 'stderr'):
+                    eff = 'stdout'
+                elif nm == 'fflush':
+                    eff = None
             if nm in ('printf', 'puts', 'putchar', 'vprintf'):
                 eff = 'stdout'
             if eff:
